@@ -1422,7 +1422,7 @@ def loadz(f, update_structure=True):
 
 def _load(f, update_structure=True):
     fps = []
-    with smart_open.open(f, "r") as fh:
+    with smart_open.open(f, "rb") as fh:
         try:
             while True:
                 fp = pkl.load(fh)
@@ -1492,7 +1492,7 @@ def _save(f, *fps, **kwargs):
     default_dict.update(kwargs)
     protocol = default_dict["protocol"]
 
-    with smart_open.open(f, "w") as fh:
+    with smart_open.open(f, "wb") as fh:
         if protocol is None:
             protocol = pkl.HIGHEST_PROTOCOL
 
